@@ -190,7 +190,9 @@ def install_deadline_loop(h, w, F, T, ev):
 def timeout_loop(h):
     if not h.symbolic:
         from replay.hb_scenarios import run_library
-        return run_library(h)
+        from replay import more_scenarios as MS
+        run_library(h)
+        return MS.oblige_from(h, [MS.heartbeat_timeout_more])
     it = h.it
     w, sock, cfg, mgr, msg, matcher, _ = _manager(h)
     T = h.attr(cfg, "timeout")
@@ -229,7 +231,13 @@ def _truthy_at_deadline(h, sock, evs):
       trusted=["asyncio.gather(sleep(d), c) completes when both are done, i.e. not before d seconds"])
 def heartbeat_loop(h):
     if not h.symbolic:
-        return
+        from replay import more_scenarios as MS
+        return MS.oblige_from(h, [MS.heartbeat_scenarios], {
+            "while not connected no heartbeat is sent",
+            "the heartbeat loop runs until cancelled, whatever the connection state (its loop test is constantly true)",
+            "a heartbeat cycle always ends back at the loop head (nothing but cancellation ends the heartbeat task)",
+            "while connected exactly one heartbeat is sent per cycle: the configured message with RETRY_CONNECTED",
+            "each cycle sleeps exactly the configured interval"})
     it = h.it
     w, sock, cfg, mgr, msg, matcher, _ = _manager(h)
     interval = h.attr(cfg, "interval")
@@ -297,7 +305,10 @@ def message_received(h):
       trusted=["task.cancel(); await task leaves the task finished (none of the loops catches CancelledError)"])
 def start_stop(h):
     if not h.symbolic:
-        return
+        from replay import more_scenarios as MS
+        return MS.oblige_from(h, [MS.heartbeat_scenarios], {
+            "stop raises nothing", "a second stop has no effect", "stop forgets the tasks and unsubscribes",
+            "start creates the heartbeat task and the timeout task", "a second start has no effect"})
     it = h.it
     w, sock, cfg, mgr, msg, matcher, _ = _manager(h)
     r = h.method(mgr, "start")
